@@ -1,18 +1,17 @@
-import IoraModel.Lemmas.AssetsWc
+import IoraModel.Lemmas.AssetsPhases
 /-!
-C20: histories.  Lookups, reloads and arbitrary changes of the file system by the environment, in any order; between the
-resolution and the open of ONE lookup the environment may additionally change anything except turn a directory into
-something else (`DirsPreserved`: this is the leaf swap — files become links, links are re-targeted, files appear/vanish).
+C20: histories.  Lookups, reloads and arbitrary changes of the file system by the environment, in any order; every lookup sees
+one snapshot per system call (`Snaps`), constrained only by `LeafOnly` (see `Lemmas/AssetsPhases.lean`).
 -/
 namespace Iora.Assets
 open Iora
 
 /-- one step of a history -/
 inductive Op where
-  /-- `getStatic(name)`; `fsO` is the file system at the time of the `open` calls (and from then on) -/
-  | static (name : Bytes) (fsO : Fs)
+  /-- `getStatic(name)`; `sn` are the snapshots its system calls see; afterwards the file system is `sn.z` -/
+  | static (name : Bytes) (sn : Snaps)
   /-- `getTemplate(name)` -/
-  | template (name : Bytes) (fsO : Fs)
+  | template (name : Bytes) (sn : Snaps)
   | reload
   /-- the environment replaces the file system by an arbitrary other one (between lookups) -/
   | env (fs' : Fs)
@@ -22,15 +21,15 @@ inductive Out where
   | template (r : Option Bytes)
   | none
 
-/-- current file system, the `Assets` value, and every file system that was current at the open of some lookup so far -/
+/-- current file system, the `Assets` value, and every file system that was current at an open of some lookup so far -/
 structure HState where
   fs : Fs
   a : Assets
   seen : List Fs
 
 def hstep (s : HState) : Op → HState × Out
-  | .static n fsO => let (r, a') := getStaticAt s.fs fsO s.a n; ({ fs := fsO, a := a', seen := fsO :: s.seen }, .static r)
-  | .template n fsO => let (r, a') := getTemplateAt s.fs fsO s.a n; ({ fs := fsO, a := a', seen := fsO :: s.seen }, .template r)
+  | .static n sn => let (r, a') := getStaticAt sn s.a n; ({ fs := sn.z, a := a', seen := sn.o :: sn.z :: s.seen }, .static r)
+  | .template n sn => let (r, a') := getTemplateAt sn s.a n; ({ fs := sn.z, a := a', seen := sn.o :: sn.z :: s.seen }, .template r)
   | .reload => ({ s with a := reload s.a }, .none)
   | .env fs' => ({ s with fs := fs' }, .none)
 
@@ -39,14 +38,13 @@ def hrun : HState → List Op → List (Out × List Fs)
   | _, [] => []
   | s, op :: ops => ((hstep s op).2, (hstep s op).1.seen) :: hrun (hstep s op).1 ops
 
-/-- the only constraint on the environment: during one lookup directories stay directories -/
-def Valid : HState → List Op → Prop
-  | _, [] => True
-  | s, op :: ops =>
-    (match op with
-      | .static _ fsO => DirsPreserved s.fs fsO
-      | .template _ fsO => DirsPreserved s.fs fsO
-      | _ => True) ∧ Valid (hstep s op).1 ops
+/-- the only constraint on the environment: what it does WHILE a lookup runs is `LeafOnly` (for the roots `bnS`, `bnT`) -/
+def OpOK (bnS bnT : List Name) : Op → Prop
+  | .static n sn => LeafOnly sn (pathAppend (renderAbs bnS) n) bnS
+  | .template n sn => LeafOnly sn (pathAppend (renderAbs bnT) n) bnT
+  | _ => True
+
+def Valid (bnS bnT : List Name) (ops : List Op) : Prop := ∀ op ∈ ops, OpOK bnS bnT op
 
 /-- `d` was, at the open of some lookup of this history, the content of a regular file strictly inside the root -/
 def EverInside (seen : List Fs) (bn : List Name) (d : Bytes) : Prop := ∃ fs ∈ seen, Inside fs bn d
@@ -66,11 +64,7 @@ def OutGood (bnS bnT : List Name) : Out × List Fs → Prop
   | (.template (some d), seen) => EverInside seen bnT d
   | _ => True
 
-theorem hstep_inv (bnS bnT : List Name) (s : HState) (op : Op) (hinv : FsInv bnS bnT s)
-    (hv : match op with
-      | .static _ fsO => DirsPreserved s.fs fsO
-      | .template _ fsO => DirsPreserved s.fs fsO
-      | _ => True) :
+theorem hstep_inv (bnS bnT : List Name) (s : HState) (op : Op) (hinv : FsInv bnS bnT s) (hv : OpOK bnS bnT op) :
     FsInv bnS bnT (hstep s op).1 ∧ OutGood bnS bnT ((hstep s op).2, (hstep s op).1.seen) := by
   obtain ⟨st, ha, hrS, hrT, hcS, hcT⟩ := hinv
   cases op with
@@ -82,64 +76,69 @@ theorem hstep_inv (bnS bnT : List Name) (s : HState) (op : Op) (hinv : FsInv bnS
     · simp [hstep, OutGood]
   | env fs' =>
     exact ⟨⟨st, by simp [hstep, ha], hrS, hrT, by simpa [hstep] using hcS, by simpa [hstep] using hcT⟩, by simp [hstep, OutGood]⟩
-  | static n fsO =>
-    simp only at hv
+  | static n sn =>
+    simp only [OpOK] at hv
     simp only [hstep, getStaticAt, ha]
+    have hmono : ∀ {bn d}, EverInside s.seen bn d → EverInside (sn.o :: sn.z :: s.seen) bn d :=
+      fun h => (h.mono sn.z).mono sn.o
     by_cases hn : lexicallyRejected n = true
     · simp only [hn, ↓reduceIte]
       refine ⟨⟨st, rfl, hrS, hrT, ?_, ?_⟩, by simp [OutGood]⟩
       · intro k e h; obtain ⟨h1, h2⟩ := hcS k e h
-        exact ⟨h1.mono fsO, fun g hg => (h2 g hg).mono fsO⟩
-      · intro k d h; exact (hcT k d h).mono fsO
+        exact ⟨hmono h1, fun g hg => hmono (h2 g hg)⟩
+      · intro k d h; exact hmono (hcT k d h)
     · simp only [hn, Bool.false_eq_true, ↓reduceIte]
       have hn' : lexicallyRejected n = false := by simpa using hn
-      have hgood := getStaticFilesystemAt_good wcMissingNoFile (EverInside (fsO :: s.seen) bnS) s.fs fsO st n bnS hrS hv hn'
-        (fun d hd => ⟨fsO, by simp, hd⟩)
-        (fun k e h => ⟨(hcS k e h).1.mono fsO, fun g hg => ((hcS k e h).2 g hg).mono fsO⟩)
+      rw [← hrS.eq] at hv
+      have hgood := getStaticFilesystemAt_good (EverInside (sn.o :: sn.z :: s.seen) bnS) sn st n bnS hrS hv hn'
+        (fun d hd => ⟨sn.o, by simp, hd⟩) (fun g hg => ⟨sn.z, by simp, hg⟩)
+        (fun k e h => ⟨hmono (hcS k e h).1, fun g hg => hmono ((hcS k e h).2 g hg)⟩)
       obtain ⟨h1, h2, h3, h4, h5⟩ := hgood
-      refine ⟨⟨(getStaticFilesystemAt s.fs fsO st n).2, rfl, by rw [h3]; exact hrS, by rw [h4]; exact hrT, h2, ?_⟩, ?_⟩
-      · rw [h5]; intro k d h; exact (hcT k d h).mono fsO
-      · cases hr : (getStaticFilesystemAt s.fs fsO st n).1 with
-        | found b => simp only [OutGood]; exact (h1 b hr).1
+      refine ⟨⟨(getStaticFilesystemAt sn st n).2, rfl, by rw [h3]; exact hrS, by rw [h4]; exact hrT, h2, ?_⟩, ?_⟩
+      · rw [h5]; intro k d h; exact hmono (hcT k d h)
+      · cases hr : (getStaticFilesystemAt sn st n).1 with
+        | found b => simp only [OutGood]; exact h1 b hr
         | notFound => simp [OutGood]
         | rejected => simp [OutGood]
-  | template n fsO =>
-    simp only at hv
+  | template n sn =>
+    simp only [OpOK] at hv
     simp only [hstep, getTemplateAt, ha]
+    have hmono : ∀ {bn d}, EverInside s.seen bn d → EverInside (sn.o :: sn.z :: s.seen) bn d :=
+      fun h => (h.mono sn.z).mono sn.o
     by_cases hn : lexicallyRejected n = true
     · simp only [hn, ↓reduceIte]
       refine ⟨⟨st, rfl, hrS, hrT, ?_, ?_⟩, by simp [OutGood]⟩
       · intro k e h; obtain ⟨h1, h2⟩ := hcS k e h
-        exact ⟨h1.mono fsO, fun g hg => (h2 g hg).mono fsO⟩
-      · intro k d h; exact (hcT k d h).mono fsO
+        exact ⟨hmono h1, fun g hg => hmono (h2 g hg)⟩
+      · intro k d h; exact hmono (hcT k d h)
     · simp only [hn, Bool.false_eq_true, ↓reduceIte]
       have hn' : lexicallyRejected n = false := by simpa using hn
-      have hgood := getTemplateFilesystemAt_good wcMissingNoFile (EverInside (fsO :: s.seen) bnT) s.fs fsO st n bnT hrT hv hn'
-        (fun d hd => ⟨fsO, by simp, hd⟩) (fun k d h => (hcT k d h).mono fsO)
+      rw [← hrT.eq] at hv
+      have hgood := getTemplateFilesystemAt_good (EverInside (sn.o :: sn.z :: s.seen) bnT) sn st n bnT hrT hv hn'
+        (fun d hd => ⟨sn.o, by simp, hd⟩) (fun k d h => hmono (hcT k d h))
       obtain ⟨h1, h2, h3, h4, h5⟩ := hgood
-      refine ⟨⟨(getTemplateFilesystemAt s.fs fsO st n).2, rfl, by rw [h3]; exact hrS, by rw [h4]; exact hrT, ?_, h2⟩, ?_⟩
+      refine ⟨⟨(getTemplateFilesystemAt sn st n).2, rfl, by rw [h3]; exact hrS, by rw [h4]; exact hrT, ?_, h2⟩, ?_⟩
       · rw [h5]; intro k e h
-        exact ⟨(hcS k e h).1.mono fsO, fun g hg => ((hcS k e h).2 g hg).mono fsO⟩
-      · cases hr : (getTemplateFilesystemAt s.fs fsO st n).1 with
-        | some d => simp only [OutGood]; exact (h1 d hr).1
+        exact ⟨hmono (hcS k e h).1, fun g hg => hmono ((hcS k e h).2 g hg)⟩
+      · cases hr : (getTemplateFilesystemAt sn st n).1 with
+        | some d => simp only [OutGood]; exact h1 d hr
         | none => simp [OutGood]
 
 /-- **Every history.** From a filesystem-mode instance with canonical roots and clean caches, for EVERY sequence of lookups,
-reloads and environment changes (arbitrary between lookups; directory-preserving between the resolution and the open of a
-lookup), every static blob and every template ever returned consists of bytes that were, at the open of some lookup of the
-history, the content of a regular file strictly inside the static (resp. template) root. -/
-theorem history_good (bnS bnT : List Name) : ∀ (ops : List Op) (s : HState), FsInv bnS bnT s → Valid s ops →
+reloads and environment changes (arbitrary between lookups; `LeafOnly` while a lookup runs, one snapshot per system call), every
+static blob and every template ever returned consists of bytes that were, at an open of some lookup of the history, the content
+of a regular file strictly inside the static (resp. template) root. -/
+theorem history_good (bnS bnT : List Name) : ∀ (ops : List Op) (s : HState), FsInv bnS bnT s → Valid bnS bnT ops →
     ∀ o ∈ hrun s ops, OutGood bnS bnT o := by
   intro ops
   induction ops with
   | nil => intro s _ _ o ho; simp [hrun] at ho
   | cons op ops ih =>
     intro s hinv hv o ho
-    obtain ⟨hv1, hv2⟩ := hv
-    obtain ⟨hinv', hout⟩ := hstep_inv bnS bnT s op hinv hv1
+    obtain ⟨hinv', hout⟩ := hstep_inv bnS bnT s op hinv (hv op (by simp))
     simp only [hrun, List.mem_cons] at ho
     rcases ho with ho | ho
     · subst ho; exact hout
-    · exact ih _ hinv' hv2 o ho
+    · exact ih _ hinv' (fun op' h' => hv op' (by simp [h'])) o ho
 
 end Iora.Assets
